@@ -186,8 +186,11 @@ class Driver:
                 out = "queued"
             elif name == "gc":
                 gc = kv.KVGarbageCollector(st)
-                with st.db.begin() as conn:
-                    out = await gc.collect(conn)
+                try:
+                    with st.db.begin() as conn:
+                        out = await gc.collect(conn)
+                except Exception as e:      # noqa  (a pass that aborts is an observation, not a harness failure)
+                    out = "raise:" + type(e).__name__
             elif name == "reindex":
                 st.writer_queue.put(("reindex", [op["index"], Event(**op["event"])]))
                 out = "queued"
@@ -837,14 +840,15 @@ def suite_delete_matrix(tier, seed, prop="C08"):
 def suite_gc(tier, seed, prop="C17"):
     s = Suite("corr:kv-gc")
     s.rule = ("collect() under the injected clock T on stores mixing kinds {1,19999,20000,29999,30000} (the ephemeral ones written through the "
-              "writer queue directly) with expiration values {T-1,T,T+1,10^9-1,10^10,'','abc','0123','1e9','-5',absent, two tags}, interleaved "
+              "writer queue directly) with expiration values {T-1,T,T+1,10^9-1,10^10,'','abc','0123','1e9','-5',non-ASCII digits,absent, two tags}, interleaved "
               "with further submissions and a second pass; keyspace before/after vs model and the C17 oracle; non-trivial = some commit deleted keys")
     rng = rng_for(seed, "kv-gc")
     hs = []
     n = 120 if tier == "quick" else 1500
     for _ in range(n):
         T = rng.choice([1000, 1001, 999999999, 1000000000, 1700000000])
-        vals = [str(T - 1), str(T), str(T + 1), "999999999", "10000000000", "", "abc", "0123", "1e9", "-5", None, "two", "0", str(T - 1) + "\x00"]
+        vals = [str(T - 1), str(T), str(T + 1), "999999999", "10000000000", "", "abc", "0123", "1e9", "-5", None, "two", "0", str(T - 1) + "\x00",
+                "\u0661\u0662\u0663", "\uff11\uff12\uff13", "\u00b2", "1\u0660"]      # Arabic-Indic / fullwidth digits, superscript two: str.isdigit() but not bytes.isdigit()
         ops = []
         for _ in range(rng.randint(1, 6)):
             k = rng.choice([1, 1, 19999, 20000, 29999, 30000, 25000])
